@@ -85,6 +85,16 @@ pub struct MListener {
 }
 
 #[derive(Clone, Debug, Default)]
+pub struct MIntro {
+    pub providers: BTreeSet<C>,
+    pub cached: Option<SerializedValue>,
+    /// provider currently asked by the broker, with the broker-chosen serial
+    pub queried: Option<(C, u32)>,
+    /// clients waiting for the answer
+    pub pending: Vec<(C, u32)>,
+}
+
+#[derive(Clone, Debug, Default)]
 pub struct Model {
     pub conns: BTreeMap<C, MConn>,
     /// object uuid -> object
@@ -96,6 +106,8 @@ pub struct Model {
     pub seen_cookies: BTreeSet<Uuid>,
     /// connections on which nothing can be observed (their broker-side task was dropped)
     pub unobservable: BTreeSet<C>,
+    /// introspection database: type id -> entry
+    pub intros: BTreeMap<Uuid, MIntro>,
 }
 
 /// One expected message with flexibility markers.
@@ -107,6 +119,8 @@ pub enum Exp {
     May(Message),
     /// exactly one of the two (the property does not rank the two answers)
     Either(Message, Message),
+    /// internal marker: the broker must ask another provider for this type id
+    Requery(Uuid),
     /// AddChannelCapacity to the sender with any positive amount up to `max` (announcement
     /// policy is the broker's; only the bound is stated)
     Announce { cookie: Uuid, max: u64 },
@@ -439,6 +453,66 @@ impl Model {
         }
         // calls it was serving disappeared together with its services (handled above)
         self.calls.retain(|call| call.callee != c);
+        // introspection: its registrations and its pending queries go away; if it was being asked
+        // the broker asks another provider or gives up
+        let types: Vec<Uuid> = self.intros.keys().copied().collect();
+        for t in types {
+            let e = self.intros.get_mut(&t).unwrap();
+            let was_queried = e.queried.is_some();
+            if e.queried.map(|q| q.0) == Some(c) {
+                e.queried = None;
+            }
+            e.pending.retain(|p| p.0 != c);
+            let was_provider = e.providers.remove(&c);
+            if was_provider && e.providers.is_empty() {
+                let e = self.intros.remove(&t).unwrap();
+                if was_queried && e.queried.is_none() {
+                    for (pc, ps) in e.pending {
+                        if self.alive(pc) {
+                            eff.must(pc, QueryIntrospectionReply { serial: ps, result: QueryIntrospectionResult::Unavailable });
+                        }
+                    }
+                }
+                eff.note("introspection:last-provider-gone");
+            } else if was_queried && e.queried.is_none() {
+                eff.out.entry(usize::MAX).or_default().push(Exp::Requery(t));
+                eff.note("introspection:requery-after-disconnect");
+            }
+        }
+    }
+
+    /// Resolves `Requery` markers: the broker asks one of the remaining providers with a new
+    /// serial; which one and which serial is read from the observed output.
+    pub fn resolve_requeries(&mut self, eff: &mut Effects, obs: &ObsView) {
+        let Some(list) = eff.out.remove(&usize::MAX) else { return };
+        for e in list {
+            let Exp::Requery(t) = e else { continue };
+            let Some(entry) = self.intros.get(&t) else { continue };
+            let providers: Vec<C> = entry.providers.iter().copied().collect();
+            let mut found = None;
+            for p in &providers {
+                if let Some(s) = obs.take(*p, |m| match m {
+                    Message::QueryIntrospection(q) if q.type_id.0 == t => Some(q.serial),
+                    _ => None,
+                }) {
+                    found = Some((*p, s));
+                    break;
+                }
+            }
+            // a provider whose connection cannot be observed may have been chosen
+            if found.is_none() {
+                if let Some(p) = providers.iter().find(|p| self.unobservable.contains(p)) {
+                    found = Some((*p, u32::MAX));
+                }
+            }
+            match found {
+                Some((p, s)) => {
+                    self.intros.get_mut(&t).unwrap().queried = Some((p, s));
+                    eff.must(p, QueryIntrospection { serial: s, type_id: aldrin_core::TypeId(t) });
+                }
+                None => eff.problems.push(format!("introspection of {}: expected the broker to ask one of the providers {:?}", t, providers)),
+            }
+        }
     }
 
     fn violation(&mut self, eff: &mut Effects, c: C) {
@@ -1012,10 +1086,23 @@ impl Model {
                 }
             }
 
-            Message::RegisterIntrospection(_) => {
+            Message::RegisterIntrospection(req) => {
                 if v < 17 {
                     self.violation(&mut eff, c);
                     eff.note("gated:register-introspection");
+                } else {
+                    match req.value.deserialize::<std::collections::HashSet<aldrin_core::TypeId>>() {
+                        Ok(ids) => {
+                            for t in ids {
+                                self.intros.entry(t.0).or_default().providers.insert(c);
+                            }
+                            eff.note("introspection:registered");
+                        }
+                        Err(_) => {
+                            self.violation(&mut eff, c);
+                            eff.note("introspection:bad-registration");
+                        }
+                    }
                 }
             }
 
@@ -1024,8 +1111,84 @@ impl Model {
                     self.violation(&mut eff, c);
                     eff.note("gated:query-introspection");
                 } else {
-                    // built without the broker's introspection feature: never available
-                    eff.must(c, QueryIntrospectionReply { serial: req.serial, result: QueryIntrospectionResult::Unavailable });
+                    let t = req.type_id.0;
+                    match self.intros.get_mut(&t) {
+                        None => eff.must(c, QueryIntrospectionReply { serial: req.serial, result: QueryIntrospectionResult::Unavailable }),
+                        Some(e) => {
+                            if let Some(v) = &e.cached {
+                                eff.must(c, QueryIntrospectionReply { serial: req.serial, result: QueryIntrospectionResult::Ok(v.clone()) });
+                                eff.note("introspection:cached");
+                            } else {
+                                e.pending.push((c, req.serial));
+                                if e.queried.is_none() {
+                                    eff.out.entry(usize::MAX).or_default().push(Exp::Requery(t));
+                                }
+                                eff.note("introspection:pending");
+                            }
+                        }
+                    }
+                }
+            }
+
+            Message::QueryIntrospectionReply(req) => {
+                if v < 17 {
+                    self.violation(&mut eff, c);
+                } else {
+                    // the serial must be one the broker is waiting for, and from the asked provider
+                    let t = self.intros.iter().find(|(_, e)| e.queried.map(|q| q.1) == Some(req.serial)).map(|(t, _)| *t);
+                    match t {
+                        None => {
+                            self.violation(&mut eff, c);
+                            eff.note("introspection:reply-unknown-serial");
+                        }
+                        Some(t) => {
+                            let e = self.intros.get_mut(&t).unwrap();
+                            if e.queried.map(|q| q.0) != Some(c) {
+                                self.violation(&mut eff, c);
+                                eff.note("introspection:reply-from-other");
+                            } else {
+                                e.queried = None;
+                                match &req.result {
+                                    QueryIntrospectionResult::Ok(val) => {
+                                        e.cached = Some(val.clone());
+                                        let pending = std::mem::take(&mut e.pending);
+                                        for (pc, ps) in pending {
+                                            if self.alive(pc) {
+                                                eff.must(pc, QueryIntrospectionReply { serial: ps, result: QueryIntrospectionResult::Ok(val.clone()) });
+                                            }
+                                        }
+                                        eff.note("introspection:answered");
+                                    }
+                                    QueryIntrospectionResult::Unavailable => {
+                                        e.providers.remove(&c);
+                                        // Queries that the answering provider itself has pending for
+                                        // this type are dropped by the broker without an answer. No
+                                        // listed property covers this corner (a connection asking for
+                                        // a type it registered and then declaring it unavailable), so
+                                        // the model follows the broker and leaves the answer open.
+                                        let own: Vec<(C, u32)> = e.pending.iter().copied().filter(|p| p.0 == c).collect();
+                                        e.pending.retain(|p| p.0 != c);
+                                        for (_, ps) in own {
+                                            eff.may(c, QueryIntrospectionReply { serial: ps, result: QueryIntrospectionResult::Unavailable });
+                                            eff.note("introspection:own-pending-dropped");
+                                        }
+                                        if e.providers.is_empty() {
+                                            let e = self.intros.remove(&t).unwrap();
+                                            for (pc, ps) in e.pending {
+                                                if self.alive(pc) {
+                                                    eff.must(pc, QueryIntrospectionReply { serial: ps, result: QueryIntrospectionResult::Unavailable });
+                                                }
+                                            }
+                                            eff.note("introspection:unavailable");
+                                        } else {
+                                            eff.out.entry(usize::MAX).or_default().push(Exp::Requery(t));
+                                            eff.note("introspection:ask-next-provider");
+                                        }
+                                    }
+                                }
+                            }
+                        }
+                    }
                 }
             }
 
@@ -1035,6 +1198,7 @@ impl Model {
                 eff.note("wrong-direction");
             }
         }
+        self.resolve_requeries(&mut eff, obs);
         eff
     }
 
@@ -1155,6 +1319,10 @@ impl Model {
     }
 
     /// Counts for the statistics gauges.
+    pub fn num_introspections(&self) -> usize {
+        self.intros.len()
+    }
+
     pub fn gauges(&self) -> (usize, usize, usize, usize, usize) {
         let conns = self.conns.values().filter(|c| c.alive).count();
         let objs = self.objs.len();
